@@ -212,6 +212,7 @@ func (p *ParserZH) setStmtCompleteFlag() {
 //
 // returns (matched, tokenType)
 func (p *ParserZH) tryConsume(validTypes ...uint8) (bool, *syntax.Token) {
+	verifTick()
 	tk := p.peek()
 	// if next token is comma, then ignore comma (only once!) and
 	// read next token
